@@ -8,6 +8,7 @@ import p_sched
 import p_upload
 import p_peerfsm
 import p_live
+import p_crypto
 
 HOOK_COMMITS = ["ad8b203", "23d7fe8", "8de280d", "16a7335", "4ddeda5"]
 
@@ -22,6 +23,18 @@ _B4 = "TLC-enumerated case table (TLA+ decision function over boundary classes) 
 _LIVE = "Trusted: TLC, the loop-gate stepping, mktor/content. Real goroutines, real event loop; timing only through generous watchdogs (5-10 s)."
 
 REGISTRY = {
+    "C07": {"run": p_crypto.run_c07, "design": "DESIGN.md section 3 C07",
+            "technique": "TLC exhaustive model checking of Handshake.tla (all chunkings of a staged reader) + real handshakes against an independent MSE implementation over a connection that delivers TLC/plan-chosen segments",
+            "level": "Handshake.tla checks BufIsReceived/StageAligned/SurplusExact for every chunking of an abstract field layout; the real protocol/crypto handshakes run "
+                     "in both roles against the harness's independent implementation with every single cut at each field boundary, byte-at-a-time, coalesced and multi-cut "
+                     "plans: the handshake must succeed with the right hash, ids, capability bits and cipher mode, and bytes glued to it reach the message layer exactly once, in order.",
+            "note": "Trusted: TLC, the harness's MSE implementation and scripted connection."},
+    "C08": {"run": p_crypto.run_c08, "design": "DESIGN.md section 3 C08",
+            "technique": "TLC-enumerated policy table (CryptoPolicy.tla, 8192 cells) executed with real client and server + CryptoConn.tla write-loop model with scripted partial/failing writes checked by an independent decrypter",
+            "level": "CryptoPolicy.tla computes the outcome of every pair of option sets and handshake kind and TLC checks it is permitted by both policies; every cell is executed: "
+                     "established mode vs both policies, agreement, payload visibility on the tapped wire, transparency. crypto.Conn.Write is driven with scripted underlying "
+                     "writes; the wire must decrypt (independent key derivation + RC4) to a prefix of the plaintext and stay silent after the first failure.",
+            "note": "Trusted: TLC, the harness's MSE implementation."},
     "C10": {"run": p_live.run_c10, "design": "DESIGN.md section 3 C10",
             "technique": "TLC exhaustive model checking of Requests.tla + simulated behaviours executed on a running torrent (loop gate + yield hook)",
             "level": "Requests.tla (two-step Torrent.Request, FIFO loop, Flip before its TorHave, eviction, withdrawals) is model-checked exhaustively "
